@@ -138,8 +138,33 @@ def run_case(tier, seed, i):
     n_calls = int(rng.integers(3, 9))
     distinct_frames = set()
     for _ in range(n_calls):
-        kind = gen.pick(rng, ["train", "subset", "subset", "permutation", "reindex", "dev", "new", "bool_mask"])
+        kind = gen.pick(rng, ["train", "subset", "subset", "permutation", "reindex", "dev", "new", "bool_mask", "read_only"])
         expect = None
+        if kind == "read_only":
+            # the read-only views must not alter the fitted state either (a transform follows in the same history)
+            which_view = gen.pick(rng, ["summary", "history", "to_json", "summary_feature"])
+            if A.features:
+                if which_view == "summary":
+                    common.guarded(A.summary)
+                elif which_view == "summary_feature":
+                    common.guarded(A.summary, A.features[0])
+                elif which_view == "history":
+                    common.guarded(A.history)
+                else:
+                    common.guarded(A.to_json)
+            hist.append("read_only:" + which_view)
+            counters["read_only_calls"] = counters.get("read_only_calls", 0) + 1
+            # (history() tags its stored records with the feature name, which shows in a later to_json(): the statement is about
+            #  what transform relies on, so the JSON export is left out of this comparison and the reference JSON is refreshed)
+            snap = common.estimator_snapshot(A)
+            counters["snapshots_compared"] += 1
+            changed = [k for k in common.snapshot_diff(snap0, snap) if k != "json"]
+            if changed:
+                viols.append({"kind": "state_changed_by_read_only_call", "msg": f"[{which_view}()] fitted state changed by a read-only call: {changed}"})
+                break
+            snap0 = snap
+            h0 = common.snapshot_hash(snap0)
+            continue
         if kind == "train":
             frame = case.X.copy()
             expect = full
@@ -175,6 +200,7 @@ def run_case(tier, seed, i):
         hist.append(kind)
         distinct_frames.add(kind.split(":")[0] + str(len(frame)))
         fp = common.frame_fingerprint(frame)
+        frame_before = frame.copy()
         out, e = common.guarded(A.transform, frame)
         counters["transform_calls"] += 1
         if e is not None:
@@ -190,6 +216,11 @@ def run_case(tier, seed, i):
                     break
             if list(out.index) != list(frame.index):
                 viols.append({"kind": "index_changed", "msg": f"[{kind}] output index differs from input index"})
+                break
+            bad = [c for c in frame.columns if c not in fitted_cols and c in out.columns and
+                   (common.series_diff(out[c].tolist(), frame_before[c].tolist()) or str(out[c].dtype) != str(frame_before[c].dtype))]
+            if bad:
+                viols.append({"kind": "non_feature_column_changed", "msg": f"[{kind}] non-feature column(s) {bad} changed by transform"})
                 break
             if expect is not None:
                 d = common.frames_diff(out, expect)
